@@ -53,7 +53,7 @@ def tool_versions():
 
 # library sources a spec TU does not #include itself but needs at link time
 NATIVE_EXTRA = {'s_vector.c': ['array.c', 'memory.c', 'common.c'], 's_string.c': ['array.c', 'memory.c', 'common.c'],
-                's_heap.c': [], 's_map.c': []}
+                's_heap.c': [], 's_map.c': [], 's_mapc.c': ['rbtree.c', 'bintree.c', 'common.c']}
 
 
 def native_replay(g, inputs, workdir):
@@ -158,15 +158,40 @@ def cmd_check(prop, tier, only=None, keep=False, quiet=False):
     try:
         # longest first
         groups.sort(key=lambda g: -g.timeout)
+        # bounded groups: the harness is first executed natively (ASan/UBSan) on the real code.  A
+        # failure there is a demonstrated violation (the failing scenario ran on the code itself); CBMC
+        # is then not needed for that group -- on defective code its symbolic execution of the same
+        # scenarios may not even terminate (wild pointers), which would only give "undecided".
+        pre = {}
+
+        def prescreen(g):
+            if g.kind == 'B' and g.replay:
+                pre[g.gid] = native_replay(g, {}, scratch)
+        with concurrent.futures.ThreadPoolExecutor(max_workers=8) as ex:
+            list(ex.map(prescreen, groups))
+
+        def run_or_pre(g):
+            if pre.get(g.gid, {}).get('reproduced'):
+                r = R.GroupResult(g)
+                obs = pre[g.gid].get('observation', '')
+                msgs = re.findall(r'NATIVE-CHECK-FAILED: (.*)', obs)
+                what = msgs[0] if msgs else (re.findall(r'(NATIVE-SIGNAL.*|ERROR: AddressSanitizer[^\n]*|[^\n]*runtime error[^\n]*)', obs) or ['abnormal termination'])[0]
+                r.status = 'fail'
+                r.failed = [{'name': 'native.execution', 'description': 'bounded harness executed natively on the real code: ' + what[:300],
+                             'inputs': {}, 'trace': obs[-1500:].splitlines(), 'location': {}}]
+                r.native = {'ran': True, 'failed': True}
+                r.reason = 'failed in native execution; CBMC not run'
+                return r
+            return R.run_group(g, scratch, logs, keep)
         with concurrent.futures.ThreadPoolExecutor(max_workers=NCPU) as ex:
-            futs = [ex.submit(R.run_group, g, scratch, logs, keep) for g in groups]
+            futs = [ex.submit(run_or_pre, g) for g in groups]
             for f in futs:
                 results.append(f.result())
         # bounded groups: the same harness is also executed natively (ASan/UBSan) on the real code;
         # this measures the number of scenarios / assertion evaluations and cross-checks CBMC's model
         def nat(r):
             if r.group.kind == 'B' and r.group.replay and r.status == 'pass':
-                n = native_replay(r.group, {}, scratch)
+                n = pre.get(r.group.gid) or native_replay(r.group, {}, scratch)
                 m = re.search(r'NATIVE-STATS: checks=(\d+) distinct_check_sites=(\d+) scenarios=(\d+) nontrivial_scenarios=(\d+)', n.get('observation', ''))
                 r.native = {'ran': bool(m), 'failed': bool(n.get('reproduced'))}
                 if m:
